@@ -145,7 +145,7 @@ fn sc(r: Result<BigNum, JsError>) -> String { match r { Ok(v) => v.to_str(), Err
 fn sv(r: Result<Value, JsError>) -> String {
     match r { Ok(v) => if v.multiasset().is_some() { "multiasset".into() } else { v.coin().to_str() }, Err(_) => "err".into() }
 }
-fn okerr<T>(r: &Result<T, JsError>) -> &'static str { if r.is_ok() { "ok" } else { "err" } }
+fn okerr<T>(r: &Result<T, JsError>) -> &'static str { if r.is_ok() { "ok" } else { "rej" } }
 
 fn new_tx_builder(c: &Case) -> TransactionBuilder {
     let cfg = TransactionBuilderConfigBuilder::new()
@@ -247,8 +247,10 @@ fn exec(toks: &[String]) -> String {
         (sc(tb2.get_deposit()), sv(tb2.get_implicit_input()))
     } else { ("-".to_string(), "-".to_string()) };
 
-    format!("ok hd={} hi={} hd2={} hi2={} cd={} cr={} wt={} bd={} bi={} ti={} to={} xd={} xi={} sc={} sw={} dd={} di={}",
-        hd, hi, hd2, hi2, cd, cr, wt, bd, bi, ti, to, xd, xi, okerr(&r1), okerr(&r2), dd, di)
+    let fields = format!("hd={} hi={} hd2={} hi2={} cd={} cr={} wt={} bd={} bi={} ti={} to={} xd={} xi={} sc={} sw={} dd={} di={}",
+        hd, hi, hd2, hi2, cd, cr, wt, bd, bi, ti, to, xd, xi, okerr(&r1), okerr(&r2), dd, di);
+    // first token: `ovf` when some figure is an overflow error, `ok` otherwise (only for the case distribution)
+    format!("{} {}", if fields.contains("=err") { "ovf" } else { "ok" }, fields)
 }
 
 // ------------------------------------------------------------------------------------------------
